@@ -24,7 +24,7 @@ CLAIMED = {
          'Theorems C04_* (coq/props/C04.v): lev <= k implies squared histogram distance <= 2k^2 for every letter->bin map; the kdtree model (ball query + exact filter) and the hash model return exactly the C01 set; engines are set-equal; the float64 radius expression regenerated from nn.py admits 2k^2 for every k in 1..4096 in both comparison forms (C04_radius, coq/props/C04r.v, PrimFloat sweep by vm_compute); the one-edit generator used by the hash ball is regenerated from distance.py and proved equal to the model (coq/props/C12g.v).',
          COMMON_NOTE + 'scipy KDTree.query_ball_point returns all points within the radius it is given (float64 radius sqrt(2)*k); rapidfuzz extract.', 'DESIGN.md section 4 C04'),
  'C06': ('Coq proof over the reals: multinomial factorial moments by induction on N, then field on the formulas regenerated from stats.py; exact-rational correspondence and exact enumeration of the expectation on the implementation',
-         'Theorems C06_* (coq/props/C06.v): for all N, K and every probability vector, E[pc_n] = sum p^2, E[pc(a,b)] = sum p q, E[varpc_n] = Var(pc) (N >= 4), where pc_n / varpc_n are the functions generated from the source on this run. A changed coefficient breaks the proof.',
+         'Theorems C06_* (coq/props/C06.v): for all N, K and every probability vector, E[pc_n] = sum p^2, E[pc(a,b)] = sum p q, E[varpc_n] = Var(pc) (N >= 4), where pc_n / varpc_n are the functions generated from the source on this run; C06_std: stdpc_n / stdpc (shape regenerated) is the unique non-negative root of varpc_n of the same counts. A changed coefficient breaks the proof.',
          COMMON_NOTE + 'float64 evaluation of the formulas (1e-9); Coq.Reals axioms sig_forall_dec, functional_extensionality_dep; the two-sample estimator formula is hand-written and tied by correspondence.', 'DESIGN.md section 4 C06'),
  'C07': ('Coq proof of Hamming-mode exactness for symdel (self and two-collection), the hash ball and the kdtree bucket search; differential runs over interleaved length classes',
          'Theorems C07_* (coq/props/C07.v): each engine model returns exactly the ordered pairs of distinct input positions with equal length and <= k mismatches, d = number of mismatches; unequal lengths never. Positions are positions of the input list (kdtree buckets are mapped back).',
